@@ -3,7 +3,7 @@
 Copies a confirmed seeded change from /tmp/seed-out/<id> to /verif/seeded/<id>/ and records what was run."""
 import sys, os, json, shutil, glob
 sid, rules, expect, validation = sys.argv[1:5]
-src = f"/tmp/seed-out/{sid}"; dst = f"/verif/seeded/{sid}"
+src = sys.argv[5] if len(sys.argv) > 5 else f"/tmp/seed-out/{sid}"; dst = f"/verif/seeded/{sid}"
 os.makedirs(dst, exist_ok=True)
 for f in glob.glob(src + "/*"):
     b = os.path.basename(f)
